@@ -1,4 +1,6 @@
 """C06 - no avoidable waiting: work starts, proceeds and ends as early as the rules allow."""
+from hypothesis import strategies as st
+
 from .. import gen
 from .. import simcheck
 from ..core import Result
@@ -6,7 +8,7 @@ from ..core import Result
 PID = "C06"
 LEVEL = "exploration"
 RULE = (
-    'Hypothesis-generated models (profiles W and F, all dependency kinds, solo flags, fixed lists, per-resource absences, all task rules). Oracle at every working step: start dependencies satisfied in the updated snapshot => not NONE; automatic task without component not READY after allocation; no FREE worker eligible (C04 predicate) for a READY/WORKING non-facility task that can still accept it, and no FREE eligible worker+facility pair of the placed workplace for facility tasks of single-task components of flat products; zero remaining work and finish dependencies at the end of step k-1 => FINISHED at step k. Non-trivial = a READY task waited after allocation for lack of an eligible worker, or a worker joined an already WORKING task; distinct by spec hash.'
+    'Hypothesis-generated models (profiles W and F, all dependency kinds, solo flags, fixed lists, per-resource absences, all task rules). Oracle at every working step: start dependencies satisfied in the updated snapshot => not NONE; automatic task without component not READY after allocation; no FREE worker eligible (C04 predicate) for a READY/WORKING non-facility task that can still accept it, and no FREE eligible worker+facility pair of the placed workplace for facility tasks of single-task components of flat products - for a component that stayed unplaced, of every workplace the task lists whose free room (counting everything that was there at the start or at the end of the pass) holds the component; sizes and capacities are dyadic or decimal (exact fits such as 0.3 = 3 x 0.1); zero remaining work and finish dependencies at the end of step k-1 => FINISHED at step k. Non-trivial = a READY task waited after allocation for lack of an eligible worker, or a worker joined an already WORKING task; distinct by spec hash.'
 )
 ASSUMPTIONS = [
     "skill standard deviations are 0 (deterministic skills); unit_time=1; task_performed_mode='multi-workers'",
@@ -23,12 +25,47 @@ CFG = gen.Cfg(warm=4, facilities=True, max_workers=5, max_time=[40, 80], kinds=[
 CFG_PAIRS = CFG.copy(max_wps=2, max_facs_per_wp=3, min_tasks=3, max_tasks=6, max_workers=4)
 
 
+@st.composite
+def _fit_spec(draw):
+    """Exact fit: a few independent facility tasks, one component each, sizes u or 2u and a capacity of 3u or 4u
+    written as decimal literals (u = 0.1 or 1.1), enough (mostly solo-working) workers and facilities: whether the last component gets in
+    is decided by a comparison that is a rounding error away from equality."""
+    u = draw(st.sampled_from([0.1, 1.1]))
+    lit = {0.1: [0.1, 0.2, 0.3, 0.4], 1.1: [1.1, 2.2, 3.3, 4.4]}[u]
+    n = draw(st.integers(3, 5))
+    tasks, comps = [], []
+    for i in range(n):
+        tasks.append({"work": draw(st.sampled_from([1.0, 2.0, 3.0])), "prog": 0.0, "auto": False, "nf": True, "comp": i, "wpr": draw(st.sampled_from([0, 1])),
+                      "wr": -1, "fr": 0, "fixw": None, "fixf": None, "due": -1, "rate": 1.0})
+        comps.append({"space": draw(st.sampled_from(lit[:2])), "parent": None})
+    deps = []
+    if draw(st.booleans()):
+        a = draw(st.integers(0, n - 2))
+        deps.append([a, draw(st.integers(a + 1, n - 1)), 0])
+    n_wps = draw(st.integers(1, 2))
+    wps = [{"cap": draw(st.sampled_from(lit[1:])), "targets": list(range(n)), "inputs": []} for _ in range(n_wps)]
+    facs = []
+    for k in range(n_wps):
+        for _ in range(draw(st.integers(2, 4))):
+            facs.append({"wp": k, "cost": 1.0, "solo": False, "skills": {str(i): 1.0 for i in range(n)}, "abs": []})
+    solo = draw(st.sampled_from([True, True, True, False]))  # solo workers: one pair per task, the others stay free
+    workers = [
+        {"team": 0, "cost": 1.0, "solo": solo, "skills": {str(i): 1.0 for i in range(n)}, "fsk": {str(j): 1.0 for j in range(len(facs))}, "abs": [], "mw": None}
+        for _ in range(draw(st.integers(2, 5)))
+    ]
+    return {
+        "tasks": tasks, "deps": deps, "order": list(draw(st.permutations(list(range(n))))), "comps": comps,
+        "teams": [{"targets": list(range(n))}], "workers": workers, "wps": wps, "facs": facs,
+        "opts": {"rule": draw(st.sampled_from([0, 2, 4])), "abs": [], "auto_abs": False, "max_time": 60},
+    }
+
+
 def strategy(tier):
     from hypothesis import strategies as st
 
     cfg = CFG if tier == "quick" else CFG.copy(max_tasks=12, max_workers=8)
     pairs = CFG_PAIRS if tier == "quick" else CFG_PAIRS.copy(max_tasks=9, max_workers=6)
-    return st.one_of(gen.model_spec(cfg), gen.model_spec(cfg), gen.model_spec(pairs).map(gen.single_task_components))
+    return st.one_of(gen.model_spec(cfg), gen.model_spec(cfg), gen.pairs_spec(pairs), _fit_spec())
 
 
 def budget(tier):
